@@ -25,6 +25,7 @@ static mut N_ON_FINISH: u32 = 0;
 static mut N_COPY: u32 = 0;
 static mut T_COPY: u32 = 0;
 static mut N_EVAL: u32 = 0;
+static mut N_RULES_GUARD: u32 = 0;
 static mut RECORDED: usize = 255;
 static mut N_SET_CONNECTOR: u32 = 0;
 static mut LAST_STATE: u8 = 0;
@@ -83,7 +84,7 @@ pub struct GlobalState { pub rules: [Arc<Rule>; MAX_RULES], pub n: usize, pub io
 pub struct RulesGuard<'a>(&'a [Arc<Rule>]);
 impl<'a> RulesGuard<'a> { pub fn iter(&self) -> std::slice::Iter<'a, Arc<Rule>> { self.0.iter() } }
 impl GlobalState {
-    pub async fn rules(&self) -> RulesGuard<'_> { RulesGuard(&self.rules[..self.n]) }
+    pub async fn rules(&self) -> RulesGuard<'_> { unsafe { N_RULES_GUARD += 1; } RulesGuard(&self.rules[..self.n]) }
 }
 
 #[derive(Clone, Copy)]
@@ -155,6 +156,9 @@ fn run(bound: usize) {
         let chosen: Option<ConnRef> = match first { Some(i) => store[i].target, None => None };
         let allowed = match chosen { Some(c) => FEATURE_OK[c.id as usize], None => false };
 
+        // C15 (reader side): the whole decision is taken under ONE read guard, so a concurrent replacement of the
+        // rule list cannot be observed half-way
+        assert!(N_RULES_GUARD == 1);
         // C02 (i) the upstream connected to is the one named by the first matching rule, at most once
         assert!(N_CONNECT <= 1);
         if allowed {
